@@ -17,6 +17,17 @@ nobody about to write the eventfd".
 Branch guards, the position of the `quit_` reset, the existence of the final drain, the swap, the
 locking of `~EventLoopThread` and the `finished_` handshake between `threadFunc` and `startLoop` come from
 `Generated/Loop.lean` (re-extracted from /repo).
+
+**Functor objects die, too.**  A functor is an object; what it owns (a bound session, the last `shared_ptr` to
+something) is destroyed with it, on the loop thread, and the destructor of such a captured object is user code that may
+call `queueInLoop` / `runInLoop` / `quit` again.  `dtbl t` is what the destruction of task `t`'s functor object does
+(`[]` for a functor that owns nothing of interest).  The functor objects of a batch live in the local vector of
+`doPendingFunctors` until the vector is emptied: after all of them have run they die in vector order (`corpses`,
+`burying`), and **where that happens relative to `callingPendingFunctors_ = false`** is the extracted flag
+`batchDestroyedBeforeReset`.  The functor handed to an inline `runInLoop` (a by-value parameter) dies when the call
+returns (`Sub.bury`).  A task started by the pipe's read callback is a plain function call: no functor object.  Not
+modelled: the destruction of functors that are still queued when the `EventLoop` itself is destroyed (they are
+destroyed unexecuted inside `~EventLoop`).
 -/
 namespace MuduoVerif.Loop
 open MuduoVerif.Gen.Loop
@@ -31,6 +42,8 @@ inductive Sub
   | post (t : TaskId)       -- make the pipe readable; its channel's read callback runs task t
   | startLoop               -- EventLoopThread::startLoop()      (owner of the EventLoopThread)
   | destroy                 -- EventLoopThread::~EventLoopThread()
+  | bury (t : TaskId)       -- not an API call: the functor object of task t that was handed to an inline runInLoop dies
+                            -- (pushed by the model behind an inline call; the drivers' case language cannot write it)
   deriving DecidableEq, Repr, Inhabited
 
 /-- position of a thread inside one API call -/
@@ -71,6 +84,7 @@ inductive Item | wake | pipe
 inductive Event
   | point (name : String)
   | exec (t : TaskId)
+  | dtor (t : TaskId)                -- the destructor of what task t's functor object owns starts to run
   | wakeup | wakeread
   | post (t : TaskId)
   | started | startedNull | joined | returned | destroyed
@@ -87,6 +101,7 @@ structure St where
   elt : Bool                         -- EventLoopThread scenario: loop thread is T1, owner/destroyer is T0
   wakeLast : Bool                    -- order in which `poll` reports the eventfd and the pipe
   tbl : TaskId → List Sub            -- body of each task
+  dtbl : TaskId → List Sub           -- what the destruction of each task's functor object does (mostly `[]`)
   -- fields of EventLoop
   alive : Bool
   pending : List TaskId              -- pendingFunctors_ (under mutex_)
@@ -107,6 +122,9 @@ structure St where
   active : List Item
   batch : List TaskId                -- the local vector `functors`, not yet executed part
   final : Bool                       -- the drain in progress is the one after the `while`
+  corpses : List TaskId              -- functor objects of the batch that have run and still sit in the local vector
+                                     -- (those whose destruction does something: `dtbl t ≠ []`), in vector order
+  burying : Bool                     -- the batch has run and its functor objects are being destroyed
   -- the other threads
   thr : Nat → FThread
   -- ghosts
@@ -165,12 +183,14 @@ def runTop (s : St) : St :=
     | [] => { s with out := none }
     | [] :: rest =>
       { s with stack := rest,
-               out := if rest.isEmpty && s.phase == .draining then some (.point "doPendingFunctors:functorDone") else none }
+               out := if rest.isEmpty && s.phase == .draining && !s.burying
+                      then some (.point "doPendingFunctors:functorDone") else none }
     | (.queue x :: r) :: rest =>
       { s with pending := s.pending ++ [x], appendOrder := s.appendOrder ++ [x], stack := r :: rest,
                lpc := .appended, out := some (.point "queueInLoop:appended") }
     | (.run x :: r) :: rest =>
-      if runInline true then { s with stack := s.tbl x :: r :: rest, out := some (.exec x) }
+      -- inline: the functor is a by-value parameter of `runInLoop`; it dies when the call returns
+      if runInline true then { s with stack := s.tbl x :: (.bury x :: r) :: rest, out := some (.exec x) }
       else { s with pending := s.pending ++ [x], appendOrder := s.appendOrder ++ [x], stack := r :: rest,
                     lpc := .appended, out := some (.point "queueInLoop:appended") }
     | (.quit :: r) :: rest =>
@@ -178,6 +198,9 @@ def runTop (s : St) : St :=
                lpc := .quitStored, out := some (.point "quit:stored") }
     | (.post x :: r) :: rest =>
       { s with ioReady := s.ioReady ++ [x], stack := r :: rest, out := some (.post x) }
+    | (.bury x :: r) :: rest =>
+      if (s.dtbl x).isEmpty then { s with stack := r :: rest, out := none }
+      else { s with stack := s.dtbl x :: r :: rest, out := some (.dtor x) }
     | (_ :: r) :: rest => { s with stack := r :: rest, out := none }
 
 /-- the loop thread is inside a task body -/
@@ -186,9 +209,10 @@ def busy (s : St) : Bool := s.lpc != .idle || !s.stack.isEmpty
 def enterLoop (s : St) : St :=
   { s with looping := true, phase := .entered, out := some (.point "loop:entry") }
 
-/-- one step of the loop thread; `fd` = what `loop()` does with the functor queue after its `while` (the code's own
-shape is `finalDrain`, see `stepLoop`; the parameter lets the theorems also speak about the other shapes) -/
-def stepLoopFD (fd : FinalDrain) (s : St) : St :=
+/-- one step of the loop thread; `fd` = what `loop()` does with the functor queue after its `while`, `bd` = the functor
+objects of a batch are destroyed before `callingPendingFunctors_` is reset (the code's own shape is `finalDrain`,
+`batchDestroyedBeforeReset`, see `stepLoop`; the parameters let the theorems also speak about the other shapes) -/
+def stepLoopG (fd : FinalDrain) (bd : Bool) (s : St) : St :=
   match s.phase with
   | .unborn => { s with out := none }
   | .born => { s with alive := true, phase := .pre, out := none }
@@ -221,15 +245,24 @@ def stepLoopFD (fd : FinalDrain) (s : St) : St :=
   | .draining =>
     if busy s then runTop s
     else match s.batch with
-      | t :: r => { s with batch := r, executed := s.executed ++ [t], stack := [s.tbl t], out := some (.exec t) }
+      | t :: r =>
+        { s with batch := r, executed := s.executed ++ [t], stack := [s.tbl t],
+                 corpses := if (s.dtbl t).isEmpty then s.corpses else s.corpses ++ [t], out := some (.exec t) }
       | [] =>
-        let s1 := { s with calling := if callingResetAfterRun then false else s.calling }
-        if s.final then
-          -- `while (queueSize() > 0)`: the test of the queue (under `mutex_`) and what follows it are one step
-          if fd = .untilEmpty && !s.pending.isEmpty then
-            { s1 with calling := true, phase := .preSwap, out := some (.point "doPendingFunctors:beforeSwap") }
-          else leaveLoop s1
-        else { s1 with phase := .looptest, out := some (.point "loop:afterFunctors") }
+        match s.corpses with
+        | c :: cr =>
+          -- the `for` is over; the functor objects die in vector order, each destructor body runs like a task body on
+          -- this thread.  `bd = false`: the flag was reset before the first of them dies.
+          { s with corpses := cr, burying := true, stack := [s.dtbl c],
+                   calling := if callingResetAfterRun && !bd then false else s.calling, out := some (.dtor c) }
+        | [] =>
+          let s1 := { s with burying := false, calling := if callingResetAfterRun then false else s.calling }
+          if s.final then
+            -- `while (queueSize() > 0)`: the test of the queue (under `mutex_`) and what follows it are one step
+            if fd = .untilEmpty && !s.pending.isEmpty then
+              { s1 with calling := true, phase := .preSwap, out := some (.point "doPendingFunctors:beforeSwap") }
+            else leaveLoop s1
+          else { s1 with phase := .looptest, out := some (.point "loop:afterFunctors") }
   | .atExit =>
     if fd = .none then leaveLoop s
     else { s with calling := true, final := true, phase := .preSwap,
@@ -242,6 +275,9 @@ def stepLoopFD (fd : FinalDrain) (s : St) : St :=
                     out := some .destroyed }
     else { s with out := none }
   | .dead => { s with out := none }
+
+/-- the loop thread's step with the code's own order of "destroy the batch" and "reset the flag" -/
+def stepLoopFD (fd : FinalDrain) (s : St) : St := stepLoopG fd batchDestroyedBeforeReset s
 
 /-- the loop thread's step for the code as it is -/
 def stepLoop (s : St) : St := stepLoopFD finalDrain s
@@ -288,6 +324,7 @@ def stepIdle (s : St) (k : Nat) (t : FThread) : St :=
   | .destroy :: r =>
     if s.elt then { setThr s k { pc := .dEntry, prog := r } with out := some (.point "dtor:entry") }
     else silent s k { pc := .idle, prog := r }
+  | .bury _ :: r => silent s k { pc := .idle, prog := r }
 
 def stepAppended (s : St) (k : Nat) (t : FThread) : St :=
   if wakeGuard false s.calling s.looping then doWake s k { t with pc := .idle } false
@@ -345,6 +382,11 @@ def stepFD (fd : FinalDrain) (s : St) (k : Nat) : St := if k = s.L then stepLoop
 
 def runFD (fd : FinalDrain) (s : St) (sched : List Nat) : St := sched.foldl (stepFD fd) s
 
+/-- … and with another order of "destroy the batch" / "reset `callingPendingFunctors_`" -/
+def stepBD (bd : Bool) (s : St) (k : Nat) : St := if k = s.L then stepLoopG finalDrain bd s else stepOther s k
+
+def runBD (bd : Bool) (s : St) (sched : List Nat) : St := sched.foldl (stepBD bd) s
+
 /-! ## who can move -/
 
 def loopEnabled (s : St) : Bool :=
@@ -377,13 +419,13 @@ def finished (s : St) (k : Nat) : Bool :=
 /-- plain scenario: T0 owns the loop (constructed already), runs `pre`, then calls `loop()`;
 `progs k` is the program of foreign thread `k ≥ 1`.
 EventLoopThread scenario: T0 runs `progs 0` (startLoop … destroy), T1 is the loop thread whose
-init callback runs `pre`. -/
-def init (elt wakeLast : Bool) (tbl : TaskId → List Sub) (pre : List Sub) (progs : Nat → List Sub) : St :=
-  { elt := elt, wakeLast := wakeLast, tbl := tbl,
+init callback runs `pre`.  `tbl t` / `dtbl t`: the body of task `t` / of the destructor of what its functor owns. -/
+def init (elt wakeLast : Bool) (tbl dtbl : TaskId → List Sub) (pre : List Sub) (progs : Nat → List Sub) : St :=
+  { elt := elt, wakeLast := wakeLast, tbl := tbl, dtbl := dtbl,
     alive := !elt, pending := [], calling := false, looping := false, quit := false, ev := 0, ioReady := [],
     loopPtr := false, mtx := false, waiting := false, finished := false,
     phase := if elt then .unborn else .pre, lpc := .idle, stack := if pre.isEmpty then [] else [pre],
-    active := [], batch := [], final := false,
+    active := [], batch := [], final := false, corpses := [], burying := false,
     thr := fun k => { pc := .idle, prog := progs k },
     appendOrder := [], executed := [], qreq := false, selfQuit := false, quitMark := none, retMark := none,
     uafDtor := false, uafUser := false, wrongThread := false, out := none }
